@@ -10,9 +10,11 @@ NOT decided: that __contains__ (name or ==) coincides with name equality for all
 uuid.UUID's normalisation of upper-case/braced ids (library).
 """
 import ast
+import re
 
 from .. import analysis
-from ..astutil import calls_in, call_name, where
+from ..astutil import calls_in, call_name, where, local_assignments, atoms_at
+from ..logic import known, labels_in
 from ..cfg import enclosing_handlers
 from ..dataflow import reaching_defs, def_value
 from ..facts import instance_fields
@@ -96,9 +98,10 @@ def run(prog, rep):
     rep.saw_function(ap)
 
     # ----------------------------------------------------------------- DOM-4
-    rep.rule("DOM-4", "name setters: every store to _name is either `self._id` on the true side of `not <value>` or the new value "
-                      "dominated by the false side of `not <value>` and of `hasattr(parent, L) and <value> in parent.L` (raise on true) "
-                      "where L is the child list of the object's own kind and parent is self.parent")
+    rep.rule("DOM-4", "name setters, path form: every entry->store path of `_name = <value>` crosses a branch edge that forces "
+                      "`<value>` truthy, and one that forces not(hasattr(parent, L) and <value> in parent.L) where L is the child list of the "
+                      "object's own kind and parent is self.parent (so the clashing outcome never reaches the store); every path to "
+                      "`_name = self._id` crosses an edge that forces `<value>` falsy. Insensitive to how the tests are nested or flipped")
     for cname, lists in (("BaseSection", ("sections",)), ("BaseProperty", ("properties", "props"))):
         f = prog.cls(cname).lookup_prop("name", "setter")
         if f is None:
@@ -109,48 +112,57 @@ def run(prog, rep):
         stores = [n for n in g.nodes if n.kind == "stmt" and isinstance(n.ast, ast.Assign)
                   and unparse(n.ast.targets[0]) == "%s._name" % me]
         rep.floor("DOM-4", len(stores), 2, "stores to _name in %s" % f.short)
+
+        def is_parent(e, f=f, me=me):
+            if isinstance(e, ast.Name):
+                vals = local_assignments(f.node, e.id)
+                return bool(vals) and all(not isinstance(v, ast.AugAssign) and norm_text(v) == "%s._parent" % me for v in vals)
+            return norm_text(e) == "%s._parent" % me
+
+        foreign = []
+
+        def classify(leaf, val=val, lists=lists, is_parent=is_parent, foreign=foreign):
+            if isinstance(leaf, ast.Name) and leaf.id == val:
+                return "V"
+            if isinstance(leaf, ast.Compare) and len(leaf.ops) == 1 and isinstance(leaf.ops[0], ast.In) and unparse(leaf.left) == val \
+                    and isinstance(leaf.comparators[0], ast.Attribute):
+                lst = leaf.comparators[0]
+                if lst.attr in lists and is_parent(lst.value):
+                    return "C"
+                foreign.append(lst)
+                return None
+            if isinstance(leaf, ast.Call) and call_name(leaf) == "hasattr" and len(leaf.args) == 2 and is_parent(leaf.args[0]) \
+                    and isinstance(leaf.args[1], ast.Constant) and leaf.args[1].value in lists:
+                return "H"
+            return None
+
         for n in stores:
             v = unparse(n.ast.value)
-            conds = g.dominating_conditions(n)
-            ctxt = [(norm_text(t), pol) for t, pol, _ in conds]
             if v == "%s._id" % me:
-                good = ("not %s" % val, "true") in ctxt
-                rep.check(good, "DOM-4", "%s: fallback to the id" % f.short, "under `not %s`" % val,
-                          "_name = self._id is not guarded by `not %s` (guards %s)" % (val, ctxt), where(f, n.ast))
+                good = known(g, n, classify, lambda a: not a["V"], ["V"])
+                rep.check(good, "DOM-4", "%s: fallback to the id" % f.short, "only for an empty new name",
+                          "_name = self._id is reachable with a non-empty new name", where(f, n.ast))
                 continue
-            good_empty = ("not %s" % val, "false") in ctxt
-            clash = None
-            for t, pol, br in conds:
-                if pol != "false":
-                    continue
-                for cmpn in ast.walk(t):
-                    if isinstance(cmpn, ast.Compare) and isinstance(cmpn.ops[0], ast.In) and unparse(cmpn.left) == val \
-                            and isinstance(cmpn.comparators[0], ast.Attribute):
-                        clash = (cmpn.comparators[0], br)
-            rep.check(v == val and good_empty, "DOM-4", "%s: store of the new name" % f.short, "non-empty value",
-                      "_name = %s is stored without the empty-name fallback dominating it (guards %s)" % (v, ctxt), where(f, n.ast),
+            good_empty = v == val and known(g, n, classify, lambda a: a["V"], ["V"])
+            rep.check(good_empty, "DOM-4", "%s: store of the new name" % f.short, "non-empty value",
+                      "_name = %s is reachable with an empty value (no fallback to the id on that path)" % v, where(f, n.ast),
                       witness="obj.name = '' leaves an empty name")
-            if clash is None:
-                rep.fail("DOM-4", "%s|no-clash-test" % f.short, "the new name is stored without a raising test against the parent's child list",
-                         where(f, n.ast), witness="rename a child to the name of its sibling")
+            del foreign[:]
+            has_clash = any("C" in labels_in(b.ast.test, classify) for b in g.nodes if b.kind == "branch")
+            if not has_clash:
+                if foreign:
+                    rep.fail("DOM-4", "%s: clash test uses the list of its own kind" % f.short,
+                             "the clash test looks into %s; a %s lives in self.parent.%s" % (unparse(foreign[0]), cname[4:], lists[0]), where(f, n.ast),
+                             witness="rename a %s to the name of a sibling %s: accepted" % (cname[4:], cname[4:]))
+                else:
+                    rep.fail("DOM-4", "%s|no-clash-test" % f.short, "the new name is stored without a raising test against the parent's child list",
+                             where(f, n.ast), witness="rename a child to the name of its sibling")
                 continue
-            lst, br = clash
-            rep.check(lst.attr in lists, "DOM-4", "%s: clash test uses the list of its own kind" % f.short, "parent.%s" % lst.attr,
-                      "the clash test looks into parent.%s; a %s lives in parent.%s" % (lst.attr, cname[4:], lists[0]), where(f, br.ast),
-                      witness="rename a %s to the name of a sibling %s: accepted" % (cname[4:], cname[4:]))
-            base = lst.value
-            ok_parent = False
-            if isinstance(base, ast.Name):
-                defs = reaching_defs(g, br, base.id)
-                vals = [def_value(d, base.id) for d in defs]
-                ok_parent = len(vals) == 1 and vals[0] is not None and norm_text(vals[0]) == "%s._parent" % me
-            else:
-                ok_parent = norm_text(base) == "%s._parent" % me
-            rep.check(ok_parent, "DOM-4", "%s: clash test against the own parent" % f.short, "self.parent",
-                      "the clash test does not look at self.parent's list", where(f, br.ast))
-            t_side = br.out("true")
-            raises = t_side and any(m.kind == "raise" and g.dominates(t_side[0], m) for m in g.nodes)
-            rep.check(bool(raises), "DOM-4", "%s: clash raises" % f.short, "raise on the true side", "a detected clash does not raise", where(f, br.ast))
+            rep.ok("DOM-4", "%s: clash test uses the list of its own kind" % f.short, "self.parent.%s" % lists[0], where(f, n.ast))
+            guarded = known(g, n, classify, lambda a: not (a["H"] and a["C"]), ["H", "C"])
+            rep.check(guarded, "DOM-4", "%s: clash never reaches the store" % f.short, "every path to the store knows not(hasattr and clash)",
+                      "a path reaches `_name = %s` although `%s in self.parent.%s` may hold (the clash outcome is not excluded on it)"
+                      % (v, val, lists[0]), where(f, n.ast), witness="rename a child to the name of its sibling: accepted")
 
     # ---------------------------------------------------------------- PROV-1
     rep.rule("PROV-1", "constructors of Section and Property: the branch `if not name` dominates the store `self._name = name`, "
@@ -216,11 +228,9 @@ def run(prog, rep):
             for n in stores:
                 n_id += 1
                 v = unparse(n.ast.value)
-                canonical = v == "str(uuid.uuid4())" or (v.startswith("str(uuid.UUID(") and v.endswith("))"))
-                rep.check(canonical, "PROV-2", "%s: _id = %s" % (f.short, v[:40]), "canonical uuid text",
-                          "_id is stored as %s, not as a canonical uuid string" % v[:60], where(f, n.ast),
-                          witness="an id in upper case / with braces / garbage is kept verbatim")
-                if "uuid.UUID(" in v:
+                shape = _id_shape(n.ast.value)
+                canonical = shape is not None
+                if shape and shape[0] == "parse":
                     hs = enclosing_handlers(g, n)
                     if fname == "__init__":
                         ok = False
@@ -228,7 +238,7 @@ def run(prog, rep):
                             for k, hn in h.succ:
                                 if k == "except" and any(c in ("ValueError", "Exception", "*") for c in hn.info["classes"]):
                                     sub = [m for m in g.nodes if g.dominates(hn, m) and m.kind == "stmt" and isinstance(m.ast, ast.Assign)
-                                           and unparse(m.ast.targets[0]) == "%s._id" % me and unparse(m.ast.value) == "str(uuid.uuid4())"]
+                                           and unparse(m.ast.targets[0]) == "%s._id" % me and _id_shape(m.ast.value) == ("fresh",)]
                                     ok = ok or bool(sub)
                         rep.check(ok, "PROV-2", "%s: malformed id is replaced" % f.short, "except ValueError: fresh uuid4",
                                   "a malformed oid is not replaced by a fresh id in the constructor", where(f, n.ast),
@@ -237,19 +247,22 @@ def run(prog, rep):
                         rep.check(not hs, "PROV-2", "%s: malformed id is rejected" % f.short, "no handler around uuid.UUID",
                                   "new_id catches the ValueError of a malformed id instead of rejecting it", where(f, n.ast),
                                   witness="obj.new_id('garbage') succeeds")
-            body = [s for s in f.node.body if not (isinstance(s, ast.Expr) and isinstance(s.value, ast.Constant))]
-            # skeleton: ordered _id stores (value text), guards on the id parameter and handler classes;
-            # insensitive to local names, messages, comments and unrelated statements
+            # skeleton: one entry per _id store = (value shape, what is known about the id parameter there, classes of the
+            # handlers around it, classes of the handler it sits in); insensitive to names, nesting, branch order, messages
             skel = []
-            scope = body if fname == "new_id" else [s for s in body if isinstance(s, ast.Try) and "_id" in unparse(s)]
-            for s0 in scope:
-                for x in ast.walk(s0):
-                    if isinstance(x, ast.Assign) and unparse(x.targets[0]) == "%s._id" % me:
-                        skel.append("store " + unparse(x.value))
-                    elif isinstance(x, ast.ExceptHandler):
-                        skel.append("except " + (unparse(x.type) if x.type is not None else "*"))
-                    elif isinstance(x, ast.If):
-                        skel.append("if " + unparse(x.test))
+            for n in stores:
+                shape = _id_shape(n.ast.value)
+                names = set(x.id for x in ast.walk(n.ast.value) if isinstance(x, ast.Name)) - set(["str", "uuid", me])
+                facts = set()
+                for t, pol, _ in atoms_at(g, n):
+                    hit = [p for p in f.params[1:] if re.search(r"(?<![\w.])%s\b" % re.escape(p), t)]
+                    if hit:
+                        for p in hit:
+                            t = re.sub(r"(?<![\w.])%s\b" % re.escape(p), "ID", t)
+                        facts.add("%s=%s" % (t, pol))
+                around = sorted(set(c for h in enclosing_handlers(g, n) for k, hn in h.succ if k == "except" for c in hn.info["classes"]))
+                inside = sorted(set(c for hn in g.nodes if hn.kind == "handler" and g.dominates(hn, n) for c in hn.info["classes"]))
+                skel.append("%s if {%s} try-except(%s) in-handler(%s)" % (shape and shape[0], ", ".join(sorted(facts)), ",".join(around), ",".join(inside)))
             shapes[fname][cname] = " | ".join(sorted(skel))
     # foreign writers
     for f in prog.all_functions():
@@ -283,6 +296,19 @@ def run(prog, rep):
     rep.check(len(body) == 1 and isinstance(body[0], ast.Delete) and "index(" in unparse(body[0]), "IDENT-1", "SmartList.remove via index", "ok",
               "SmartList.remove no longer goes through the identity based index", rm.where)
     rep.assume("uuid.UUID raises ValueError exactly for malformed ids and str() of it is the canonical form")
+
+
+def _id_shape(value):
+    """('fresh',) for str(<..>uuid4()) ; ('parse', <arg text>) for str(<..>UUID(arg)) ; None otherwise."""
+    if not (isinstance(value, ast.Call) and unparse(value.func) == "str" and len(value.args) == 1 and isinstance(value.args[0], ast.Call)):
+        return None
+    inner = value.args[0]
+    fn = unparse(inner.func).split(".")[-1]
+    if fn == "uuid4" and not inner.args:
+        return ("fresh",)
+    if fn == "UUID" and len(inner.args) == 1:
+        return ("parse", unparse(inner.args[0]))
+    return None
 
 
 def _reach_without(g, a, b, blocked):
